@@ -408,6 +408,13 @@ namespace OP2Utility::Archive
 				break;
 			}
 		}
+
+		// Names are looked up by entry position, so every valid entry needs a name in the string table
+		if (packedFileCount > m_StringTable.size()) {
+			throw std::runtime_error("The string table of volume " + m_ArchiveFilename +
+				" contains fewer names than the index table contains valid entries");
+		}
+
 		m_Count = packedFileCount;
 	}
 
